@@ -42,6 +42,24 @@ def rnds (j : Json) (n : Nat) : List Rnd :=
 
 def zipR (xs : List Rat) (rs : List Rnd) : List (Rat × Rnd) := xs.zip rs
 
+/-- `alpha` attribute of binary / ternary: null | "auto" | "auto_po2" | [num, den] -/
+def btAlphaOfJson (j : Json) : Except String BTAlpha :=
+  match j with
+  | .null => pure .none
+  | .str "auto" => pure .auto
+  | .str "auto_po2" => pure .autoPo2
+  | v => do pure (.const (← ratOfJson v))
+
+/-- one step of a history on a binary / ternary object: "trainable" (`_set_trainable_parameter()`, also what
+    building a layer around the object does), "call" (an earlier use), {"alpha": …} (attribute assignment) -/
+def btOpOfJson (j : Json) : Except String (HOp BTAlpha BTIn) :=
+  match j with
+  | .str "trainable" => pure (.set BTAlpha.setTrainable)
+  | .str "call" => pure (.call ⟨D.var 0, D.const 0⟩)
+  | v => do
+    let a ← btAlphaOfJson (← v.getObjVal? "alpha")
+    pure (.set fun _ => a)
+
 def handle (j : Json) : Except String Json := do
   let op ← getStr j "op"
   let t := tieOf j
@@ -152,6 +170,20 @@ def handle (j : Json) : Except String Json := do
     let rows := (xs.zip xqs).zip (ths.zip dths)
     pure <| Json.mkObj [("out", dOut (rows.map fun ((x, xq), (th, dth)) =>
       binTerD an (fun _ => th) (fun _ => dth) (D.var x) (D.const xq)))]
+  | "binter_hist" =>
+    -- ONE object: constructed with `alpha0`, then the history `hist`, then called on the test tensor; the
+    -- surrogate is read from the alpha in force at THAT call (HObj.run over btCall)
+    let a0 ← btAlphaOfJson (← cfg.getObjVal? "alpha0")
+    let hj ← (← j.getObjVal? "hist").getArr?
+    let ops ← hj.toList.mapM btOpOfJson
+    let xqs ← getRatList j "xqs"
+    let ths ← getRatList j "ths"
+    let dths ← getRatList j "dths"
+    let rows := (xs.zip xqs).zip (ths.zip dths)
+    pure <| Json.mkObj [("out", dOut (rows.map fun ((x, xq), (th, dth)) =>
+      let o := HObj.run (btCall (fun _ => th) (fun _ => dth)) (HObj.new a0)
+        (ops ++ [.call ⟨D.var x, D.const xq⟩])
+      o.outs.getLast?.getD ⟨0, 0⟩))]
   | "binary_sr" =>
     -- binary(use_stochastic_rounding=True) on ONE scale group (a 1-D tensor or one channel): `xs` all its
     -- elements, `us` the draws, `ws` the upstream gradient, `f` = 2·min(max|x|, 1), `imax` the index of the
